@@ -1,6 +1,7 @@
 package main
 
 import (
+	"regexp"
 	"bufio"
 	"bytes"
 	"context"
@@ -247,7 +248,7 @@ func (ir *IncResult) PanicSite() string {
 					if sp := strings.IndexByte(f, ' '); sp > 0 {
 						f = f[:sp]
 					}
-					return trimTo(msg, 80) + " @ " + f
+					return trimTo(digitsRe.ReplaceAllString(msg, "N"), 80) + " @ " + f
 				}
 			}
 			break
@@ -255,6 +256,8 @@ func (ir *IncResult) PanicSite() string {
 	}
 	return trimTo(msg, 120)
 }
+
+var digitsRe = regexp.MustCompile(`[0-9]+`)
 
 func trimTo(s string, n int) string {
 	if len(s) > n {
